@@ -137,13 +137,15 @@ Definition check_case (c : case) : N :=
       let base := charge sender sfee (base_of pre fee vc) in
       if negb (entry_ok p && small p) then 3
       else
-        let okE := mech_ok (run_tx Eager base p) halt post feeC feeS vc' evs in
-        let okL := mech_ok (run_tx Lazy base p) halt post feeC feeS vc' evs in
+        let mE := run_tx Eager base p in
+        let okE := mech_ok mE halt post feeC feeS vc' evs in
+        (* the pre-repair machine is consulted only when the current one does not match *)
+        let mL := if okE then mE else run_tx Lazy base p in
+        let okL := if okE then false else mech_ok mL halt post feeC feeS vc' evs in
         let model_ok := okE || okL in
         (* the ghost flag of the model run that matches: did a layered frame / payment callback return while an
            exception was pending? *)
-        let flagged := if okE then negb (clean (run_tx Eager base p))
-                       else if okL then negb (clean (run_tx Lazy base p)) else false in
+        let flagged := if okE then negb (clean mE) else if okL then negb (clean mL) else false in
         let i := irun_tx base p in
         (* the property's own text: a fault changes nothing but the fee; a halt applies exactly the ideal effects and
            shows exactly the ideal notification list (the notification record of a faulted transaction is diagnostic) *)
